@@ -8,7 +8,13 @@
 //   - expr-lang (expr.Compile + expr.Run(program, nil)) on every #{...} content of the tag text
 //     as it stands after the ${} stage (and of the texts those results produce, one more level)
 //   - go-playground/validator on the field's final value with the constraints the generator wrote
-//     (Var for scalars / slices / maps, Struct for structs and pointers to structs)
+//     (Var for scalars / slices / maps, Struct for structs and pointers to structs).  The reference
+//     instance is built HERE, with WithRequiredStructEnabled: the property reads `required` on a
+//     struct value as "not the zero struct", whatever options the library gives its own instance.
+//
+// Field types: a fixed set named by ftype, or (ftype "dyn") a type built with reflect.StructOf from
+// the shape the generator sends: structs whose fields carry yaml / validate tags and are scalars,
+// nested non-pointer structs, pointers to structs, slices and maps of structs, to any depth.
 //
 // Facts: class (Priority / Ordered / none) and Order() of the built-in processor values, read by
 // type assertion on processors.New...() on every run.
@@ -50,6 +56,52 @@ type Case struct {
 	FType       string `json:"ftype"`
 	Constraints string `json:"constraints"` // as written after validate=, space separated; "" = none / struct
 	HasValidate bool   `json:"hasvalidate"`
+	Shape       *Shape `json:"shape,omitempty"` // ftype "dyn": the field's type
+}
+
+// Shape describes a Go type: k = string | int | float | bool | struct (f) | ptr | slice | map (e; maps have string keys).
+type Shape struct {
+	K string       `json:"k"`
+	F []ShapeField `json:"f,omitempty"`
+	E *Shape       `json:"e,omitempty"`
+}
+
+type ShapeField struct {
+	N string `json:"n"` // Go field name (exported)
+	Y string `json:"y"` // yaml key
+	V string `json:"v"` // validate tag, comma separated; "" = no tag
+	T Shape  `json:"t"`
+}
+
+func buildType(s *Shape) reflect.Type {
+	switch s.K {
+	case "string":
+		return reflect.TypeOf("")
+	case "int":
+		return reflect.TypeOf(int(0))
+	case "float":
+		return reflect.TypeOf(float64(0))
+	case "bool":
+		return reflect.TypeOf(false)
+	case "ptr":
+		return reflect.PointerTo(buildType(s.E))
+	case "slice":
+		return reflect.SliceOf(buildType(s.E))
+	case "map":
+		return reflect.MapOf(reflect.TypeOf(""), buildType(s.E))
+	case "struct":
+		fs := make([]reflect.StructField, 0, len(s.F))
+		for i := range s.F {
+			f := &s.F[i]
+			tag := "yaml:" + strconv.Quote(f.Y)
+			if f.V != "" {
+				tag += " validate:" + strconv.Quote(f.V)
+			}
+			fs = append(fs, reflect.StructField{Name: f.N, Type: buildType(&f.T), Tag: reflect.StructTag(tag)})
+		}
+		return reflect.StructOf(fs)
+	}
+	panic("shape kind " + s.K)
 }
 
 type Val struct {
@@ -84,7 +136,11 @@ type Out struct {
 	Evals     []Eval `json:"evals"`
 	Verdict   bool   `json:"verdict"`
 	VDetail   string `json:"vdetail,omitempty"`
-	Detail    string `json:"detail,omitempty"`
+	// statistics only (never compared): the verdict of an instance WITHOUT WithRequiredStructEnabled; where it differs
+	// from Verdict, the case's outcome is decided by `required` on a struct value
+	VerdictLax bool   `json:"verdict_lax"`
+	FieldJSON  string `json:"fieldjson,omitempty"` // ftype "dyn": the final field value, for the replay file
+	Detail     string `json:"detail,omitempty"`
 }
 
 type Fact struct {
@@ -330,12 +386,19 @@ func collectEvals(text string) []Eval {
 
 func runCase(c Case) (out Out) {
 	out = Out{ID: c.ID, Evals: []Eval{}}
-	ft := fieldType(c.FType)
+	var ft reflect.Type
+	if c.FType == "dyn" && c.Shape != nil {
+		ft = buildType(c.Shape)
+	} else {
+		ft = fieldType(c.FType)
+	}
 	tag := reflect.StructTag(c.TagKey + ":" + strconv.Quote(unhex(c.TagText)))
 	st := reflect.StructOf([]reflect.StructField{{Name: "F", Type: ft, Tag: tag}})
 	comp := reflect.New(st).Interface()
 	var pre, q, e, bound, validated seen
-	mk := func(ord int, name string, s *seen) obsCore { return obsCore{ord: ord, name: name, target: comp, seen: s} }
+	mk := func(ord int, name string, s *seen) obsCore {
+		return obsCore{ord: ord, name: name, target: comp, seen: s}
+	}
 	comps := []any{
 		&prioObserver{obsCore: mk(3, "verifObsPre", &pre)},
 		&prioObserver{obsCore: mk(5, "verifObsQuote", &q)},
@@ -374,24 +437,37 @@ func runCase(c Case) (out Out) {
 	if q.ok {
 		out.Evals = collectEvals(q.tagval)
 	}
-	// the validator's verdict on the final field value, called directly
-	out.Verdict = true
-	if c.HasValidate {
-		vp := hx.Guard(func() {
-			v := validator.New(validator.WithRequiredStructEnabled())
-			var verr error
-			if isStructType(ft) {
-				verr = v.Struct(fv.Interface())
-			} else {
-				verr = v.Var(fv.Interface(), strings.Join(strings.Fields(c.Constraints), ","))
-			}
-			if verr != nil {
-				out.Verdict, out.VDetail = false, verr.Error()
-			}
-		})
-		if vp != "" {
-			out.Verdict, out.VDetail = false, "panic: "+vp
+	if c.FType == "dyn" {
+		if data, jerr := json.Marshal(fv.Interface()); jerr == nil {
+			out.FieldJSON = string(data)
 		}
+	}
+	// the validator's verdict on the final field value, called directly.  The reference instance is configured the way
+	// the property reads the constraints (`required` on a struct value = not the zero struct), independently of the
+	// instance inside container/processors.
+	out.Verdict, out.VerdictLax = true, true
+	if c.HasValidate {
+		out.Verdict, out.VDetail = refVerdict(validator.New(validator.WithRequiredStructEnabled()), ft, fv, c.Constraints)
+		out.VerdictLax, _ = refVerdict(validator.New(), ft, fv, c.Constraints)
+	}
+	return
+}
+
+func refVerdict(v *validator.Validate, ft reflect.Type, fv reflect.Value, constraints string) (ok bool, detail string) {
+	ok = true
+	vp := hx.Guard(func() {
+		var verr error
+		if isStructType(ft) {
+			verr = v.Struct(fv.Interface())
+		} else {
+			verr = v.Var(fv.Interface(), strings.Join(strings.Fields(constraints), ","))
+		}
+		if verr != nil {
+			ok, detail = false, verr.Error()
+		}
+	})
+	if vp != "" {
+		ok, detail = false, "panic: "+vp
 	}
 	return
 }
